@@ -177,7 +177,7 @@ PROPS = {
         "harness_timeout": 3000,
         "rule": "implementation-only oracle, debug and release builds: the 12 BC encode formats x {Fast, Normal, High, Unreasonable} x {Uniform, Perceptual} x 4 dithering modes: all 256 grey levels as single-colour blocks, random single colours on the 5:6:5 grid, blocks of two random representable colours (one block per call), checkerboards of colour pairs with equal channel sums, "
                 "opaque 16-step ramps inside each block (full and low contrast), ramps with extreme alpha patterns {0,1,127,128,129,254,255}, random noise, image sizes 16x8, 7x5, 13x10 (partial edge blocks); each output is decoded with the crate's own decoder and the block bytes are inspected: "
-                "representable content within the endpoint quantisation step (exactly for BC4/BC5/BC7 and BC3 alpha; BC7 two-colour blocks within 2), opaque input decodes opaque, BC1 alpha < 128 transparent and the rest opaque, BC2/BC3-family colour blocks have colour0 > colour1, BC1 three-colour blocks use index 3 only for transparent pixels",
+                "representable content within the endpoint quantisation step (exactly for BC4/BC5/BC7 and BC3 alpha; BC7 two-colour blocks within 2), opaque input decodes opaque, BC1 alpha < 128 transparent and the rest opaque, BC2/BC3-family colour blocks have colour0 > colour1, BC1 three-colour blocks use index 3 only for transparent pixels; single colours under constant alpha 0..255, BC1 threshold from 16-bit / float alpha, opaque near-black pixels among bright colours; model comparison (tag 55): the pixels gathered into every 4x4 block, edge padding included, of 30 images per profile = model/EncBlocks.v",
         "trusted_base": BASE_TRUST + ["the decoder used by the oracle is the crate's own (verified against the specification by check C03)"],
         "assumptions": ["the BC encoders are not modelled; the bounds are checked on generated inputs only"],
     },
